@@ -366,6 +366,9 @@ def run_shard(pid, tier, seed, shard, nshards, out, ncases=None):
         for j, case in enumerate(enum(tier)):
             if j % nshards != shard:
                 continue
+            if time.time() - t0 > tlimit:
+                stopped = "time budget inside enumeration at case %d" % j
+                break
             mon.run_case(mod, case, "e%d" % j)
             idx += 1
             if len(mon.violations) >= mon.MAX_VIOLATIONS:
